@@ -9,6 +9,7 @@ import GwModel.Gen.Facts
 import GwModel.Insert
 import GwModel.Point
 import GwModel.FindPts
+import GwModel.Drv.PlanCodec
 /-! gwdrv: one JSON object per line in, one per line out (DESIGN §2.2). Core + Lean.Data.Json only. -/
 open Lean Codec
 
@@ -145,6 +146,7 @@ def handle (j : Json) : Json :=
   match getStr j "op" with
   | "mono" => Json.mkObj [("data", encVal (Mono.mono (decCase j)))]
   | "merge" => runMerge j
+  | "plan" => PlanCodec.runPlan j
   | "insert" => runInsert j
   | "point" => runPoint j
   | "findpts" => runFindPts j
